@@ -350,7 +350,23 @@ func ksUniverse(r *vh.Rng, rep *vh.Report, sc int, sufs []string) [][]byte {
 		}
 		ids = append(ids, b)
 	}
-	switch sc % 4 {
+	switch sc % 5 {
+	case 4: // CONFUSABLE ids: valid ids that differ only in one separator character (' ', '_', '-'), in letter
+		// case, or in a doubled / leading / trailing separator.  A storage-name function that normalises any of
+		// these makes two clients share keys (seeded change m41: ' ' -> '_' in the v2 ring path).
+		a, b := randValidID(r, 3+r.Intn(5)), randValidID(r, 3+r.Intn(5))
+		seps := []string{" ", "_", "-"}
+		for _, sp := range seps {
+			add([]byte(string(a) + sp + string(b)))
+		}
+		sp := seps[r.Intn(3)]
+		add([]byte(string(a) + sp + sp + string(b)))
+		add([]byte(sp + string(a) + sp + string(b)))
+		add([]byte(string(a) + sp + string(b) + sp))
+		add([]byte(strings.ToUpper(string(a)) + sp + string(b)))
+		add([]byte(strings.ToLower(string(a)) + sp + string(b)))
+		add([]byte(string(a) + string(b)))
+		rep.Count("universe:confusable")
 	case 0: // the ids the property text names
 		for _, f := range fixed[:9] {
 			add([]byte(f))
